@@ -679,8 +679,11 @@ func (o *orbitDB) DetermineAddress(ctx context.Context, name string, storeType s
 
 	if options.AccessController == nil {
 		options.AccessController = accesscontroller.NewEmptyManifestParams()
-	} else {
-		options.AccessController = accesscontroller.CloneManifestParams(options.AccessController)
+	} else if own, ok := options.AccessController.(*accesscontroller.CreateAccessControllerOptions); ok {
+		// (parameters of a type of the application are handed on as they are: the
+		// constructor of its access controller may need what they carry besides
+		// the interface)
+		options.AccessController = accesscontroller.CloneManifestParams(own)
 	}
 
 	if options.AccessController.GetName() == "" {
